@@ -7,7 +7,9 @@ import (
 	"sort"
 	"strings"
 	"sync"
+	"sync/atomic"
 
+	baseerrors "github.com/grailbio/base/errors"
 	"github.com/grailbio/bigslice"
 	"github.com/grailbio/bigslice/metrics"
 	"github.com/grailbio/bigslice/sliceio"
@@ -40,6 +42,74 @@ func effectsFor(run string) *progEffects {
 		effects[run] = e
 	}
 	return e
+}
+
+// ---- fault injection into user functions (C06): "FAULT <node> <mode> <k> <once|always>"
+// mode: err | tmp | panic | oob | neg.  The k-th call (0-based, counted over all shards and attempts) of the
+// node's user function fails; "always": every call from the k-th on fails.
+type faultSpec struct {
+	node, mode string
+	k          int64
+	once       bool
+	calls      int64
+	fired      int64
+}
+
+var faults sync.Map // run -> *faultSpec
+
+func faultFor(run, node string) *faultSpec {
+	v, ok := faults.Load(run)
+	if !ok {
+		return nil
+	}
+	f := v.(*faultSpec)
+	if f.node != node {
+		return nil
+	}
+	return f
+}
+
+func faultMarker(node string) string { return "injected-fault-" + node }
+
+// hit reports whether this call of the user function must fail.
+func (f *faultSpec) hit() bool {
+	if f == nil {
+		return false
+	}
+	n := atomic.AddInt64(&f.calls, 1) - 1
+	if f.once {
+		if n == f.k {
+			atomic.AddInt64(&f.fired, 1)
+			return true
+		}
+		return false
+	}
+	if n >= f.k {
+		atomic.AddInt64(&f.fired, 1)
+		return true
+	}
+	return false
+}
+
+// maybePanic is the hook of user functions that cannot return an error.
+func (f *faultSpec) maybePanic() {
+	if f.hit() {
+		panic(faultMarker(f.node))
+	}
+}
+
+// failure is the hook of user functions that return an error: nil, or the injected failure (may panic).
+func (f *faultSpec) failure() error {
+	if !f.hit() {
+		return nil
+	}
+	switch f.mode {
+	case "tmp":
+		return baseerrors.E(baseerrors.Temporary, faultMarker(f.node))
+	case "panic":
+		panic(faultMarker(f.node))
+	}
+	return fmt.Errorf("%s", faultMarker(f.node))
 }
 
 var progCounters = []metrics.Counter{metrics.NewCounter(), metrics.NewCounter(), metrics.NewCounter()}
@@ -128,7 +198,11 @@ func (e *progEnv) build(name string, op []string) bigslice.Slice {
 	case "reader":
 		nshard, chunk := atoi(op[1]), atoi(op[2])
 		ks, vs := parseRows(op[3:])
+		ft := faultFor(e.run, name)
 		return bigslice.ReaderFunc(nshard, func(shard int, pos *int, ok, ov []int64) (int, error) {
+			if err := ft.failure(); err != nil {
+				return 0, err
+			}
 			n := 0
 			for n < len(ok) && n < chunk {
 				i := shard + *pos*nshard
@@ -158,6 +232,10 @@ func (e *progEnv) build(name string, op []string) bigslice.Slice {
 			return int64(atoi(line)), 1
 		})
 	case "map":
+		if ft := faultFor(e.run, name); ft != nil {
+			fn := mapFn(op[2])
+			return bigslice.Map(e.ref(op[1]), func(k, v int64) (int64, int64) { ft.maybePanic(); return fn(k, v) })
+		}
 		return bigslice.Map(e.ref(op[1]), mapFn(op[2]))
 	case "mapm":
 		return bigslice.Map(e.ref(op[1]), mapFn(op[2]), bigslice.ExperimentalMaterialize)
@@ -176,6 +254,10 @@ func (e *progEnv) build(name string, op []string) bigslice.Slice {
 			return k, v
 		}, opts...)
 	case "filter":
+		if ft := faultFor(e.run, name); ft != nil {
+			fn := predFn(op[2])
+			return bigslice.Filter(e.ref(op[1]), func(k, v int64) bool { ft.maybePanic(); return fn(k, v) })
+		}
 		return bigslice.Filter(e.ref(op[1]), predFn(op[2]))
 	case "flatmap":
 		switch op[2] {
@@ -189,16 +271,23 @@ func (e *progEnv) build(name string, op []string) bigslice.Slice {
 				return ks, vs
 			})
 		case "two":
+			ft := faultFor(e.run, name)
 			return bigslice.Flatmap(e.ref(op[1]), func(k, v int64) ([]int64, []int64) {
+				ft.maybePanic()
 				return []int64{k, k + 1}, []int64{v, v}
 			})
 		}
 		panic("bad flatmap " + op[2])
 	case "fold":
-		return bigslice.Fold(e.ref(op[1]), func(acc, v int64) int64 { return acc + v })
+		ftf := faultFor(e.run, name)
+		return bigslice.Fold(e.ref(op[1]), func(acc, v int64) int64 { ftf.maybePanic(); return acc + v })
 	case "head":
 		return bigslice.Head(e.ref(op[1]), atoi(op[2]))
 	case "reduce":
+		if ft := faultFor(e.run, name); ft != nil {
+			fn := combFn(op[2])
+			return bigslice.Reduce(e.ref(op[1]), func(a, b int64) int64 { ft.maybePanic(); return fn(a, b) })
+		}
 		return bigslice.Reduce(e.ref(op[1]), combFn(op[2]))
 	case "cogroup":
 		cg := bigslice.Cogroup(e.ref(op[1]), e.ref(op[2]))
@@ -219,7 +308,17 @@ func (e *progEnv) build(name string, op []string) bigslice.Slice {
 	case "repartition":
 		switch op[2] {
 		case "byval":
+			ft := faultFor(e.run, name)
 			return bigslice.Repartition(e.ref(op[1]), func(nshard int, k, v int64) int {
+				if ft != nil && ft.hit() {
+					switch ft.mode {
+					case "oob":
+						return nshard
+					case "neg":
+						return -1
+					}
+					panic(faultMarker(name))
+				}
 				return int(((v % int64(nshard)) + int64(nshard)) % int64(nshard))
 			})
 		case "zero":
@@ -229,11 +328,15 @@ func (e *progEnv) build(name string, op []string) bigslice.Slice {
 	case "reshard":
 		return bigslice.Reshard(e.ref(op[1]), atoi(op[2]))
 	case "scan":
+		fts := faultFor(e.run, name)
 		return bigslice.Scan(e.ref(op[1]), func(shard int, sc *sliceio.Scanner) error {
 			var k, v int64
 			var rows []string
 			for sc.Scan(context.Background(), &k, &v) {
 				rows = append(rows, fmt.Sprintf("%d,%d", k, v))
+			}
+			if err := fts.failure(); err != nil {
+				return err
 			}
 			fx.mu.Lock()
 			key := fmt.Sprintf("%s/%d", name, shard)
@@ -242,7 +345,11 @@ func (e *progEnv) build(name string, op []string) bigslice.Slice {
 			return sc.Err()
 		})
 	case "writer":
+		ftw := faultFor(e.run, name)
 		return bigslice.WriterFunc(e.ref(op[1]), func(shard int, st int, err error, ks, vs []int64) error {
+			if ferr := ftw.failure(); ferr != nil {
+				return ferr
+			}
 			rows := make([]string, len(ks))
 			for i := range ks {
 				rows[i] = fmt.Sprintf("%d,%d", ks[i], vs[i])
@@ -273,6 +380,10 @@ func buildProgram(run, prog string, results ...bigslice.Slice) bigslice.Slice {
 		}
 		if f[0] == "OUT" {
 			out = e.ref(f[1])
+			continue
+		}
+		if f[0] == "FAULT" {
+			faults.LoadOrStore(run, &faultSpec{node: f[1], mode: f[2], k: int64(atoi(f[3])), once: f[4] == "once"})
 			continue
 		}
 		eq := strings.IndexByte(f[0], '=')
